@@ -79,6 +79,10 @@ EVENTS = {
                    ['V', 'x1', 'y1'], 'invalid:duplicate symbol'),
     '!dupterm': (['unit', 'B1', 'x0', ['term', [['i:7', 1], ['x1', 1]]]],
                  ['x1'], 'invalid:duplicate symbol'),
+    '!Pdupsym': (['dtype', 'Pbad', [['B1', 1], ['B2', 1]], 'x0', None],
+                 ['B1', 'B2'], 'invalid:duplicate symbol'),
+    '!Sdupsym': (['dtype', 'Sbad', [['B1', 2]], 'y0', None],
+                 ['B1', 'B2'], 'invalid:duplicate symbol'),
     '!NB2': (['dtype', 'NB2', [['B1', -1], ['N1', 1]], 'nb2', None], ['NB'],
              'invalid:dimension taken'),
     '!P2': (['dtype', 'P2', [['B2', 1], ['B1', 1]], None, None], ['P'],
